@@ -64,7 +64,7 @@ pub fn quiet_panics() {
     let default = std::panic::take_hook();
     std::panic::set_hook(Box::new(move |info| {
         // panics of the code under test (inside `guarded`) are reported by the harness
-        if GUARD_DEPTH.with(|g| g.get()) == 0 {
+        if GUARD_DEPTH.with(|g| g.get()) == 0 || std::env::var_os("FV_LOUD").is_some() {
             default(info);
         }
     }));
